@@ -339,6 +339,9 @@ func genC05(g engine.G) *engine.Case {
 		// premise (a) at a size the other profiles never reach
 		return &engine.Case{Sc: engine.GenMany(g), Reps: 2}
 	}
+	if g.Pct(1) {
+		return &engine.Case{Sc: engine.GenLadder(g), Reps: 2}
+	}
 	if g.Pct(25) {
 		// a mid-chain converter is not supplied but emitted by a generator
 		// when it is shown the intermediate value
